@@ -690,6 +690,50 @@ example :
     muxHistoryStale 4194304 16 [(false, .reload 0 (-1)), (false, .request ⟨-1, 100000⟩)] = [⟨413, false, .tooLarge⟩] := by
   decide
 
+/-! ### The int64 boundary: no overflow in either `FetchPayload` -/
+
+/-- The model computes in unbounded `Int`; the Go code in `int64`. They agree because **neither `FetchPayload` does any
+arithmetic**: the regenerated list of every `+ - * / % << >> & | ^`, unary minus, `++`/`--` and op-assignment in both
+bodies is empty — the limit is only compared, converted between 64-bit integer types (`int(maxPayloadSize)`) and handed
+to `io.LimitReader`; in particular no `limit + 1` exists that could wrap at `math.MaxInt64`. (The translated bodies
+`fetchReqIR` / `fetchRespIR` contain no Int arithmetic either: the only sums are the `Nat` counters of consumed bytes.) -/
+theorem fetch_no_int64_arithmetic : Gen.FactsC07.fetchArithmetic = [] := rfl
+
+/-- … so the boundary behaves like any other limit, on the re-translated code itself: with `clientMaxBodySize` (or
+`serverMaxBodySize`) of `math.MaxInt64` or `math.MaxInt64 - 1`, a chunked body of any size that fits and a declared one
+pass intact, buffered — not "accepted with an empty payload". -/
+theorem int64_boundary_limit_passes_intact (dflt : Int) (k : Nat) (hk : k ≤ 1) (a : Nat) (m : Option String)
+    (ha : (a : Int) ≤ 9223372036854775807 - k) (hm : (m == some "HEAD") = false) :
+    toOutcome (Gen.FactsC07IR.fetchReqIR dflt (9223372036854775807 - k) false ⟨-1, a⟩) = some (.ok a) ∧
+    toOutcome (Gen.FactsC07IR.fetchReqIR dflt (9223372036854775807 - k) false ⟨a, a⟩) = some (.ok a) ∧
+    toOutcome (Gen.FactsC07IR.fetchRespIR dflt (9223372036854775807 - k) m false ⟨-1, a⟩) = some (.ok a) := by
+  have hl : normLimit dflt (9223372036854775807 - (k : Int)) = 9223372036854775807 - (k : Int) := by
+    unfold normLimit
+    have : ¬ (9223372036854775807 - (k : Int)) = 0 := by omega
+    simp [this]
+  have hspec : ∀ s : Src, Spec.isShort s = false → (Spec.size s : Int) ≤ 9223372036854775807 - (k : Int) →
+      fetch dflt (9223372036854775807 - (k : Int)) s = .ok (Spec.size s) := by
+    intro s h1 h2
+    have h := fetch_spec dflt (9223372036854775807 - (k : Int)) s
+    rw [hl] at h
+    have hn : ¬ (9223372036854775807 - (k : Int)) < 0 := by omega
+    have hb : ¬ (Spec.size s : Int) > 9223372036854775807 - (k : Int) := by omega
+    simpa [Spec.fetchOK, hn, h1, hb] using h
+  have h1 := hspec ⟨-1, a⟩ (by simp [Spec.isShort]) (by simpa [Spec.size] using ha)
+  have h2 := hspec ⟨a, a⟩ (by simp [Spec.isShort]) (by simpa [Spec.size] using ha)
+  refine ⟨?_, ?_, ?_⟩
+  · rw [Payload.fetchReq_regenerated_from_source, h1]; simp [Spec.size]
+  · rw [Payload.fetchReq_regenerated_from_source, h2]; simp [Spec.size]
+  · rw [Payload.fetchResp_regenerated_from_source]
+    have hn : ¬ normLimit dflt (9223372036854775807 - (k : Int)) < 0 := by rw [hl]; omega
+    simp only [fetchResp, hn, if_false, hm, Bool.false_eq_true]
+    rw [h1]; simp [Spec.size]
+
+/-- non-vacuity / the seeded defect C07-m5 in numbers: at limit MaxInt64 a 100-byte chunked body is `ok 100`; a reader
+limited to `MaxInt64 + 1` wrapped to `-2^63` would deliver nothing. -/
+example : fetch 4194304 9223372036854775807 ⟨-1, 100⟩ = .ok 100 ∧
+    (readAllLimited (⟨⟨-1, 100⟩, 0, false⟩, (-9223372036854775808 : Int))).1 = 0 := by decide
+
 /-! ### Non-vacuity -/
 
 private def exOpsS : Proxy.BodyOps (List Nat) :=
